@@ -9,6 +9,7 @@ import QuiverModel.Lemmas.Packaging.Mark
 import QuiverModel.Lemmas.Packaging.Reach
 import QuiverModel.Lemmas.Packaging.ReachTransfer
 import QuiverModel.Lemmas.Packaging.SweepId
+import QuiverModel.Lemmas.Packaging.FuelSuffices
 import QuiverModel.Core.Packaging.Merge
 import QuiverModel.Lemmas.Packaging.MergeImport
 import QuiverModel.Lemmas.Packaging.MergeFrame
@@ -780,6 +781,20 @@ theorem treeShake_idempotent {P : Prog} {e : Nat} {out out2 : ShakeOut}
     (full _ _ n1 (getAll_inRange hfs) k1) (full _ _ n2 (getAll_inRange hcs) k2)
     (full _ _ hc2.nodupTuples (getAll_inRange hts) k3) (full _ _ hc2.nodupTypes (getAll_inRange hys) k4)
     (full _ _ n3 (getAll_inRange hbs) k5)
+
+/-- **`treeShake_fuel_suffices`: the fuel of the port never runs out.** The mark phase is total — for every
+    program, entry (and variant) `markAll` returns marks: the two recursive collectors with `collectFuel` (potential
+    argument: every nested call beyond a guard marks a new id, and the cost of an id pays for its child list,
+    `collectType_total` / `Phi_le_fuel`), the BFS with `bfsFuel` (every queue entry was pushed by an instruction of a
+    newly marked function, `markFns_total`). Hence `treeShake P e` is exactly the sweep on those marks, and `none` can
+    only come from the sweep: an index outside its table, where the Rust panics (`bytecode.functions[old_id]`, `.unwrap()`
+    on an unmarked operand). -/
+theorem treeShake_fuel_suffices (P : Prog) (e : Nat) :
+    ∃ m, markAll P e false = some m ∧ treeShake P e = sweep P e m := by
+  obtain ⟨m, hm⟩ := markAll_total P e false
+  refine ⟨m, hm, ?_⟩
+  unfold treeShake treeShakeWith
+  rw [hm]
 
 /-- A spawning program in miniature: the entry spawns function 1, whose callable type (entry 1) receives
     and returns `'int`; the process type of the pids it creates is entry 2 — named by no instruction
